@@ -7,12 +7,12 @@ EXTENDS ObjTree, Json, IOUtils, Randomization
 Size == atoi(IOEnv.SIZE)
 Limit == atoi(IOEnv.LIMIT)
 Sample(S) == IF Cardinality(S) <= Limit THEN S ELSE RandomSubset(Limit, S)
-Under(kp) == CASE kp = "widget" -> {"QWidget", "QLabel", "QVBoxLayout", "QAction", "SEP", "QMenu", "QTabWidget", "MyMenu", "MyWidget"}
-               [] kp = "layout" -> {"QWidget", "QLabel", "QHBoxLayout", "QGridLayout", "QFormLayout", "QSpacerItem", "MyWidget"}
+Under(kp) == CASE kp = "widget" -> {"QWidget", "QLabel", "QVBoxLayout", "QAction", "SEP", "QMenu", "QTabWidget", "MyMenu", "MyWidget", "MyRow"}
+               [] kp = "layout" -> {"QWidget", "QLabel", "QHBoxLayout", "QGridLayout", "QFormLayout", "QSpacerItem", "MyWidget", "MyRow", "MyGrid"}
                [] kp = "menu" -> {"QAction", "SEP", "QMenu", "MyMenu"}
                [] kp = "tab" -> {"QWidget", "QLabel", "QGroupBox", "MyWidget"}
                [] OTHER -> {}
-Leafy == {"QLabel", "QAction", "SEP", "QSpacerItem", "MyMenu", "MyWidget"}
+Leafy == {"QLabel", "QAction", "SEP", "QSpacerItem", "MyMenu", "MyWidget", "MyGrid"}
 Mk(c, f) == IF c = "SEP" THEN Sep("") ELSE Node(c, "", f)
 RECURSIVE Trees(_, _), Forests(_, _)
 Trees(n, kp) == UNION {IF c \in Leafy THEN (IF n = 1 THEN {Mk(c, <<>>)} ELSE {})
@@ -30,7 +30,13 @@ Bad == {Node("QWidget", "", <<Node("QVBoxLayout", "", <<Node("QAction", "", <<>>
         Node("QVBoxLayout", "", <<Node("QLabel", "", <<>>)>>),
         Node("QAction", "", <<>>),
         Node("QWidget", "", <<Node("QHBoxLayout", "", <<Sep("")>>)>>),
-        Node("QWidget", "", <<Node("QMenu", "", <<Node("QVBoxLayout", "", <<Node("QAction", "", <<>>)>>)>>)>>)}
+        Node("QWidget", "", <<Node("QMenu", "", <<Node("QVBoxLayout", "", <<Node("QAction", "", <<>>)>>)>>)>>),
+        \* a separator action is an action: no children (the next menu entry slipped inside its braces)
+        Node("QMenu", "", <<[Sep("") EXCEPT !.kids = <<Node("QAction", "", <<>>)>>], Node("QAction", "", <<>>)>>),
+        Node("QWidget", "", <<Node("QMenu", "", <<Node("QAction", "", <<>>), [Sep("") EXCEPT !.kids = <<Node("QAction", "", <<>>), Node("QMenu", "", <<>>)>>]>>)>>),
+        Node("QWidget", "", <<[Sep("") EXCEPT !.kids = <<Node("QLabel", "", <<>>)>>]>>),
+        Node("QWidget", "", <<Node("QSpacerItem", "", <<>>), Node("QVBoxLayout", "", <<>>)>>),
+        Node("QWidget", "", <<Node("QVBoxLayout", "", <<Node("QSpacerItem", "", <<Node("QSpacerItem", "", <<>>)>>)>>)>>)}
 \* shallow trees over classes whose generated-name prefixes interfere (label / label1, widget / widget2) for C10
 NameClasses == {"QLabel", "Label1", "QWidget", "Widget2", "QAction"}
 RECURSIVE Seqs(_)
